@@ -1,12 +1,1184 @@
-//! C16: harness module (stub — not built yet)
-#![allow(dead_code, unused_imports, unused_variables)]
+//! C16: message bodies are type safe, value preserving and measured consistently.
+//!
+//! Real `des::net::message::Message`s live in slots named by a tag carried in every script line.
+//! Body types come from a fixed family (see `with_ty!`): each value carries a drop tracker, so
+//! every construction / clone / destructor run is counted (`i=` instances ever created, `d=`
+//! destructor runs so far; at the end the per-instance counters are summarised).
+//!
+//! Script lines
+//!   new <tag> <id> <kind>            Message::default().id(id).kind(kind) into slot <tag>
+//!   set <tag> <ctor> <ty> <val>      ctor c  = set_content
+//!                                         nc = set_content_non_clonable
+//!                                         wl:<n> = set_body(Body::new_with_len(v, n))
+//!                                         nd = set_content_non_debugable
+//!   clone <src> <dst>                Message::clone (may panic)      | tryclone <src> <dst>
+//!   cast <tag> <ty>                  try_cast::<ty>; Ok: value+header taken, rendered, dropped
+//!   content <tag> <ty>               try_content::<ty>     | contentmut <tag> <ty> (read only)
+//!   cancast <tag> <ty> | len <tag> | drop <tag>
+//! Values are terms over  U  P<size>:<n>  S<hex>  F<size>:<n>  N  J(v)  K(v)  E(v)  B(v)  L[v,..]
+//! T(v,..)  R{v,..}  V<k>{v,..}  (unit, primitive, string, fixed-size opaque, None, Some, Ok, Err,
+//! Box, sequence, tuple, derived struct, derived enum variant k) — the same universe as the Lean
+//! model's `MB.Val`.
+//! Transcript: `<line> -> <answer> i=<instances> d=<drops>`; `end i= d= multi= leaked=`.
+#![allow(dead_code)]
 use crate::rng::Rng;
-use crate::util::{cases, guarded, hval};
+use crate::util::{cases, guarded};
+use des::net::message::Body;
+use des::prelude::*;
+use std::cell::RefCell;
+use std::collections::{BTreeMap, VecDeque};
+use std::fmt::Write;
+use std::time::Duration;
 
-pub fn gen(_seed: u64, _count: usize, _thorough: bool) -> String {
-    String::new()
+// ------------------------------------------------------------------ value terms
+
+#[derive(Debug, Clone, PartialEq)]
+pub enum V {
+    U,
+    P(usize, u128),
+    S(Vec<u8>),
+    F(usize, u128),
+    N,
+    J(Box<V>),
+    K(Box<V>),
+    E(Box<V>),
+    B(Box<V>),
+    L(Vec<V>),
+    T(Vec<V>),
+    R(Vec<V>),
+    En(usize, Vec<V>),
 }
 
-pub fn exec(_input: &str) -> String {
-    String::new()
+impl V {
+    fn render(&self, o: &mut String) {
+        fn list(o: &mut String, vs: &[V], open: char, close: char) {
+            o.push(open);
+            for (i, v) in vs.iter().enumerate() {
+                if i > 0 {
+                    o.push(',');
+                }
+                v.render(o);
+            }
+            o.push(close);
+        }
+        match self {
+            V::U => o.push('U'),
+            V::P(s, n) => write!(o, "P{s}:{n}").unwrap(),
+            V::S(b) => {
+                o.push('S');
+                for x in b {
+                    write!(o, "{x:02x}").unwrap();
+                }
+            }
+            V::F(s, n) => write!(o, "F{s}:{n}").unwrap(),
+            V::N => o.push('N'),
+            V::J(v) => {
+                o.push_str("J(");
+                v.render(o);
+                o.push(')');
+            }
+            V::K(v) => {
+                o.push_str("K(");
+                v.render(o);
+                o.push(')');
+            }
+            V::E(v) => {
+                o.push_str("E(");
+                v.render(o);
+                o.push(')');
+            }
+            V::B(v) => {
+                o.push_str("B(");
+                v.render(o);
+                o.push(')');
+            }
+            V::L(vs) => list(o, vs, '[', ']'),
+            V::T(vs) => {
+                o.push('T');
+                list(o, vs, '(', ')')
+            }
+            V::R(vs) => {
+                o.push('R');
+                list(o, vs, '{', '}')
+            }
+            V::En(k, vs) => {
+                write!(o, "V{k}").unwrap();
+                list(o, vs, '{', '}')
+            }
+        }
+    }
+    pub fn show(&self) -> String {
+        let mut s = String::new();
+        self.render(&mut s);
+        s
+    }
+    pub fn parse(s: &str) -> Option<V> {
+        let b = s.as_bytes();
+        let mut i = 0;
+        let v = Self::p(b, &mut i)?;
+        if i == b.len() {
+            Some(v)
+        } else {
+            None
+        }
+    }
+    fn num(b: &[u8], i: &mut usize) -> Option<u128> {
+        let st = *i;
+        let mut n: u128 = 0;
+        while *i < b.len() && b[*i].is_ascii_digit() {
+            n = n.checked_mul(10)?.checked_add((b[*i] - b'0') as u128)?;
+            *i += 1;
+        }
+        if *i == st {
+            None
+        } else {
+            Some(n)
+        }
+    }
+    fn eat(b: &[u8], i: &mut usize, c: u8) -> Option<()> {
+        if *i < b.len() && b[*i] == c {
+            *i += 1;
+            Some(())
+        } else {
+            None
+        }
+    }
+    fn plist(b: &[u8], i: &mut usize, open: u8, close: u8) -> Option<Vec<V>> {
+        Self::eat(b, i, open)?;
+        let mut out = Vec::new();
+        if Self::eat(b, i, close).is_some() {
+            return Some(out);
+        }
+        loop {
+            out.push(Self::p(b, i)?);
+            if Self::eat(b, i, b',').is_some() {
+                continue;
+            }
+            Self::eat(b, i, close)?;
+            return Some(out);
+        }
+    }
+    fn p(b: &[u8], i: &mut usize) -> Option<V> {
+        let c = *b.get(*i)?;
+        match c {
+            b'[' => Some(V::L(Self::plist(b, i, b'[', b']')?)),
+            _ => {
+                *i += 1;
+                match c {
+                    b'U' => Some(V::U),
+                    b'N' => Some(V::N),
+                    b'P' | b'F' => {
+                        let s = Self::num(b, i)? as usize;
+                        Self::eat(b, i, b':')?;
+                        let n = Self::num(b, i)?;
+                        Some(if c == b'P' { V::P(s, n) } else { V::F(s, n) })
+                    }
+                    b'S' => {
+                        let mut out = Vec::new();
+                        while *i + 1 < b.len() && b[*i].is_ascii_hexdigit() && b[*i + 1].is_ascii_hexdigit() {
+                            let h = std::str::from_utf8(&b[*i..*i + 2]).ok()?;
+                            out.push(u8::from_str_radix(h, 16).ok()?);
+                            *i += 2;
+                        }
+                        Some(V::S(out))
+                    }
+                    b'J' | b'K' | b'E' | b'B' => {
+                        Self::eat(b, i, b'(')?;
+                        let v = Box::new(Self::p(b, i)?);
+                        Self::eat(b, i, b')')?;
+                        Some(match c {
+                            b'J' => V::J(v),
+                            b'K' => V::K(v),
+                            b'E' => V::E(v),
+                            _ => V::B(v),
+                        })
+                    }
+                    b'T' => Some(V::T(Self::plist(b, i, b'(', b')')?)),
+                    b'R' => Some(V::R(Self::plist(b, i, b'{', b'}')?)),
+                    b'V' => {
+                        let k = Self::num(b, i)? as usize;
+                        Some(V::En(k, Self::plist(b, i, b'{', b'}')?))
+                    }
+                    _ => None,
+                }
+            }
+        }
+    }
+}
+
+// ------------------------------------------------------------------ drop tracking
+
+thread_local! {
+    /// per-instance destructor counts (instances that carry an id)
+    static REG: RefCell<Vec<u32>> = RefCell::new(Vec::new());
+    /// (instances ever created, destructor runs) over all tracked values, incl. the ZST
+    static TOT: RefCell<(u64, u64)> = RefCell::new((0, 0));
+}
+
+fn reg_reset() {
+    REG.with(|r| r.borrow_mut().clear());
+    TOT.with(|t| *t.borrow_mut() = (0, 0));
+}
+fn totals() -> (u64, u64) {
+    TOT.with(|t| *t.borrow())
+}
+
+/// drop tracker: one per value instance; cloning makes a new instance
+#[derive(Debug)]
+pub struct Tr(u32);
+impl Tr {
+    fn new() -> Tr {
+        TOT.with(|t| t.borrow_mut().0 += 1);
+        REG.with(|r| {
+            let mut r = r.borrow_mut();
+            r.push(0);
+            Tr(r.len() as u32 - 1)
+        })
+    }
+}
+impl Clone for Tr {
+    fn clone(&self) -> Self {
+        Tr::new()
+    }
+}
+impl Drop for Tr {
+    fn drop(&mut self) {
+        TOT.with(|t| t.borrow_mut().1 += 1);
+        REG.with(|r| {
+            if let Some(c) = r.borrow_mut().get_mut(self.0 as usize) {
+                *c += 1;
+            }
+        });
+    }
+}
+impl MessageBody for Tr {
+    fn byte_len(&self) -> usize {
+        0
+    }
+}
+
+// ------------------------------------------------------------------ the family of body types
+
+/// generic derived wrapper: any payload + tracker
+#[derive(Debug, Clone, MessageBody)]
+pub struct W<T> {
+    inner: T,
+    tr: Tr,
+}
+
+/// non-clonable, layout-compatible with `W<u32>`
+#[derive(Debug, MessageBody)]
+pub struct Nc {
+    v: u32,
+    tr: Tr,
+}
+
+/// derived named struct, layout-compatible with `W<u64>` / `W<[u8; 8]>`
+#[derive(Debug, Clone, MessageBody)]
+pub struct Pt {
+    x: u32,
+    y: u32,
+    tr: Tr,
+}
+
+/// derived tuple struct
+#[derive(Debug, Clone, MessageBody)]
+pub struct Ts(u8, String, Tr);
+
+/// zero-sized derived unit struct with a destructor
+#[derive(Debug, MessageBody)]
+pub struct Z;
+impl Z {
+    fn new() -> Z {
+        TOT.with(|t| t.borrow_mut().0 += 1);
+        Z
+    }
+}
+impl Clone for Z {
+    fn clone(&self) -> Self {
+        Z::new()
+    }
+}
+impl Drop for Z {
+    fn drop(&mut self) {
+        TOT.with(|t| t.borrow_mut().1 += 1);
+    }
+}
+
+/// derived enum: unit, unnamed and named variants
+#[derive(Debug, Clone, MessageBody)]
+pub enum En {
+    A,
+    B(u32, u8),
+    C { s: String, n: u64 },
+}
+
+/// derived generic struct
+#[derive(Debug, Clone, MessageBody)]
+pub struct G<T> {
+    a: T,
+    b: Option<T>,
+    v: Vec<T>,
+}
+
+#[derive(Debug, Clone, MessageBody)]
+pub struct P2 {
+    x: u16,
+    y: u16,
+}
+
+/// nested derived struct
+#[derive(Debug, Clone, MessageBody)]
+pub struct Nest {
+    p: P2,
+    e: En,
+    l: Vec<En>,
+    o: Option<G<u8>>,
+    r: Result<(), String>,
+}
+
+pub trait Fam: Sized + 'static {
+    fn from_v(v: &V) -> Option<Self>;
+    fn to_v(&self) -> V;
+    fn arb(r: &mut Rng) -> Self;
+}
+
+macro_rules! fam_int {
+    ($($t:ty),*) => {$(
+        impl Fam for $t {
+            fn from_v(v: &V) -> Option<Self> {
+                match v { V::P(s, n) if *s == std::mem::size_of::<$t>() => Some(*n as $t), _ => None }
+            }
+            fn to_v(&self) -> V { V::P(std::mem::size_of::<$t>(), (*self as u128) & (u128::MAX >> (128 - 8 * std::mem::size_of::<$t>()))) }
+            fn arb(r: &mut Rng) -> Self {
+                match r.below(4) { 0 => 0 as $t, 1 => <$t>::MAX, 2 => r.below(256) as $t, _ => r.next() as $t }
+            }
+        }
+    )*};
+}
+fam_int!(u8, u16, u32, u64, i32);
+
+impl Fam for f32 {
+    fn from_v(v: &V) -> Option<Self> {
+        match v {
+            V::P(4, n) => Some(f32::from_bits(*n as u32)),
+            _ => None,
+        }
+    }
+    fn to_v(&self) -> V {
+        V::P(4, self.to_bits() as u128)
+    }
+    fn arb(r: &mut Rng) -> Self {
+        f32::from_bits(u32::arb(r))
+    }
+}
+impl Fam for f64 {
+    fn from_v(v: &V) -> Option<Self> {
+        match v {
+            V::P(8, n) => Some(f64::from_bits(*n as u64)),
+            _ => None,
+        }
+    }
+    fn to_v(&self) -> V {
+        V::P(8, self.to_bits() as u128)
+    }
+    fn arb(r: &mut Rng) -> Self {
+        f64::from_bits(u64::arb(r))
+    }
+}
+impl Fam for bool {
+    fn from_v(v: &V) -> Option<Self> {
+        match v {
+            V::P(1, n) if *n < 2 => Some(*n == 1),
+            _ => None,
+        }
+    }
+    fn to_v(&self) -> V {
+        V::P(1, *self as u128)
+    }
+    fn arb(r: &mut Rng) -> Self {
+        r.chance(1, 2)
+    }
+}
+impl Fam for char {
+    fn from_v(v: &V) -> Option<Self> {
+        match v {
+            V::P(4, n) => char::from_u32(*n as u32),
+            _ => None,
+        }
+    }
+    fn to_v(&self) -> V {
+        V::P(4, *self as u128)
+    }
+    fn arb(r: &mut Rng) -> Self {
+        *r.pick(&['a', 'Z', '\0', 'ß', '€', '😀', '\u{10FFFF}'])
+    }
+}
+impl Fam for () {
+    fn from_v(v: &V) -> Option<Self> {
+        match v {
+            V::U => Some(()),
+            _ => None,
+        }
+    }
+    fn to_v(&self) -> V {
+        V::U
+    }
+    fn arb(_: &mut Rng) -> Self {}
+}
+impl Fam for String {
+    fn from_v(v: &V) -> Option<Self> {
+        match v {
+            V::S(b) => String::from_utf8(b.clone()).ok(),
+            _ => None,
+        }
+    }
+    fn to_v(&self) -> V {
+        V::S(self.as_bytes().to_vec())
+    }
+    fn arb(r: &mut Rng) -> Self {
+        let n = match r.below(4) {
+            0 => 0,
+            1 => 1,
+            2 => r.below(8),
+            _ => r.below(40),
+        };
+        (0..n).map(|_| char::arb(r)).filter(|c| *c != '\0').collect()
+    }
+}
+impl Fam for &'static str {
+    fn from_v(v: &V) -> Option<Self> {
+        String::from_v(v).map(|s| &*Box::leak(s.into_boxed_str()))
+    }
+    fn to_v(&self) -> V {
+        V::S(self.as_bytes().to_vec())
+    }
+    fn arb(r: &mut Rng) -> Self {
+        *r.pick(&["", "x", "Hello World", "Hello World😀", "äöü"])
+    }
+}
+impl<const N: usize> Fam for [u8; N] {
+    fn from_v(v: &V) -> Option<Self> {
+        match v {
+            V::L(xs) if xs.len() == N => {
+                let mut out = [0u8; N];
+                for (i, x) in xs.iter().enumerate() {
+                    out[i] = u8::from_v(x)?;
+                }
+                Some(out)
+            }
+            _ => None,
+        }
+    }
+    fn to_v(&self) -> V {
+        V::L(self.iter().map(Fam::to_v).collect())
+    }
+    fn arb(r: &mut Rng) -> Self {
+        let mut out = [0u8; N];
+        for x in out.iter_mut() {
+            *x = u8::arb(r);
+        }
+        out
+    }
+}
+fn arb_len(r: &mut Rng) -> u64 {
+    match r.below(4) {
+        0 => 0,
+        1 => 1,
+        _ => r.below(6),
+    }
+}
+impl<T: Fam> Fam for Vec<T> {
+    fn from_v(v: &V) -> Option<Self> {
+        match v {
+            V::L(xs) => xs.iter().map(T::from_v).collect(),
+            _ => None,
+        }
+    }
+    fn to_v(&self) -> V {
+        V::L(self.iter().map(Fam::to_v).collect())
+    }
+    fn arb(r: &mut Rng) -> Self {
+        (0..arb_len(r)).map(|_| T::arb(r)).collect()
+    }
+}
+impl<T: Fam> Fam for VecDeque<T> {
+    fn from_v(v: &V) -> Option<Self> {
+        Vec::<T>::from_v(v).map(VecDeque::from)
+    }
+    fn to_v(&self) -> V {
+        V::L(self.iter().map(Fam::to_v).collect())
+    }
+    fn arb(r: &mut Rng) -> Self {
+        let mut d: VecDeque<T> = VecDeque::new();
+        for _ in 0..arb_len(r) {
+            if r.chance(1, 2) {
+                d.push_back(T::arb(r))
+            } else {
+                d.push_front(T::arb(r))
+            }
+        }
+        d
+    }
+}
+impl<K: Fam + Ord, X: Fam> Fam for BTreeMap<K, X> {
+    fn from_v(v: &V) -> Option<Self> {
+        match v {
+            V::L(xs) => {
+                let mut m = BTreeMap::new();
+                for x in xs {
+                    match x {
+                        V::T(kv) if kv.len() == 2 => {
+                            if m.insert(K::from_v(&kv[0])?, X::from_v(&kv[1])?).is_some() {
+                                return None;
+                            }
+                        }
+                        _ => return None,
+                    }
+                }
+                Some(m)
+            }
+            _ => None,
+        }
+    }
+    fn to_v(&self) -> V {
+        V::L(self.iter().map(|(k, x)| V::T(vec![k.to_v(), x.to_v()])).collect())
+    }
+    fn arb(r: &mut Rng) -> Self {
+        (0..arb_len(r)).map(|_| (K::arb(r), X::arb(r))).collect()
+    }
+}
+impl<T: Fam> Fam for Option<T> {
+    fn from_v(v: &V) -> Option<Self> {
+        match v {
+            V::N => Some(None),
+            V::J(x) => Some(Some(T::from_v(x)?)),
+            _ => None,
+        }
+    }
+    fn to_v(&self) -> V {
+        match self {
+            None => V::N,
+            Some(x) => V::J(Box::new(x.to_v())),
+        }
+    }
+    fn arb(r: &mut Rng) -> Self {
+        if r.chance(1, 3) {
+            None
+        } else {
+            Some(T::arb(r))
+        }
+    }
+}
+impl<T: Fam, E: Fam> Fam for Result<T, E> {
+    fn from_v(v: &V) -> Option<Self> {
+        match v {
+            V::K(x) => Some(Ok(T::from_v(x)?)),
+            V::E(x) => Some(Err(E::from_v(x)?)),
+            _ => None,
+        }
+    }
+    fn to_v(&self) -> V {
+        match self {
+            Ok(x) => V::K(Box::new(x.to_v())),
+            Err(x) => V::E(Box::new(x.to_v())),
+        }
+    }
+    fn arb(r: &mut Rng) -> Self {
+        if r.chance(1, 2) {
+            Ok(T::arb(r))
+        } else {
+            Err(E::arb(r))
+        }
+    }
+}
+impl<A: Fam, B: Fam> Fam for (A, B) {
+    fn from_v(v: &V) -> Option<Self> {
+        match v {
+            V::T(xs) if xs.len() == 2 => Some((A::from_v(&xs[0])?, B::from_v(&xs[1])?)),
+            _ => None,
+        }
+    }
+    fn to_v(&self) -> V {
+        V::T(vec![self.0.to_v(), self.1.to_v()])
+    }
+    fn arb(r: &mut Rng) -> Self {
+        (A::arb(r), B::arb(r))
+    }
+}
+impl<T: Fam> Fam for Box<T> {
+    fn from_v(v: &V) -> Option<Self> {
+        match v {
+            V::B(x) => Some(Box::new(T::from_v(x)?)),
+            _ => None,
+        }
+    }
+    fn to_v(&self) -> V {
+        V::B(Box::new((**self).to_v()))
+    }
+    fn arb(r: &mut Rng) -> Self {
+        Box::new(T::arb(r))
+    }
+}
+impl Fam for Ipv4Addr {
+    fn from_v(v: &V) -> Option<Self> {
+        match v {
+            V::F(4, n) => Some(Ipv4Addr::from(*n as u32)),
+            _ => None,
+        }
+    }
+    fn to_v(&self) -> V {
+        V::F(4, u32::from(*self) as u128)
+    }
+    fn arb(r: &mut Rng) -> Self {
+        Ipv4Addr::from(u32::arb(r))
+    }
+}
+impl Fam for Duration {
+    fn from_v(v: &V) -> Option<Self> {
+        match v {
+            V::F(16, n) => Some(Duration::new((*n / 1_000_000_000) as u64, (*n % 1_000_000_000) as u32)),
+            _ => None,
+        }
+    }
+    fn to_v(&self) -> V {
+        V::F(16, self.as_nanos())
+    }
+    fn arb(r: &mut Rng) -> Self {
+        Duration::new(u64::arb(r), r.below(1_000_000_000) as u32)
+    }
+}
+impl Fam for Tr {
+    fn from_v(v: &V) -> Option<Self> {
+        match v {
+            V::F(0, 0) => Some(Tr::new()),
+            _ => None,
+        }
+    }
+    fn to_v(&self) -> V {
+        V::F(0, 0)
+    }
+    fn arb(_: &mut Rng) -> Self {
+        Tr::new()
+    }
+}
+impl<T: Fam> Fam for W<T> {
+    fn from_v(v: &V) -> Option<Self> {
+        match v {
+            V::R(xs) if xs.len() == 2 => {
+                let inner = T::from_v(&xs[0])?;
+                Some(W { inner, tr: Tr::from_v(&xs[1])? })
+            }
+            _ => None,
+        }
+    }
+    fn to_v(&self) -> V {
+        V::R(vec![self.inner.to_v(), self.tr.to_v()])
+    }
+    fn arb(r: &mut Rng) -> Self {
+        W { inner: T::arb(r), tr: Tr::new() }
+    }
+}
+impl Fam for Nc {
+    fn from_v(v: &V) -> Option<Self> {
+        match v {
+            V::R(xs) if xs.len() == 2 => {
+                let v = u32::from_v(&xs[0])?;
+                Some(Nc { v, tr: Tr::from_v(&xs[1])? })
+            }
+            _ => None,
+        }
+    }
+    fn to_v(&self) -> V {
+        V::R(vec![self.v.to_v(), self.tr.to_v()])
+    }
+    fn arb(r: &mut Rng) -> Self {
+        Nc { v: u32::arb(r), tr: Tr::new() }
+    }
+}
+impl Fam for Pt {
+    fn from_v(v: &V) -> Option<Self> {
+        match v {
+            V::R(xs) if xs.len() == 3 => {
+                let (x, y) = (u32::from_v(&xs[0])?, u32::from_v(&xs[1])?);
+                Some(Pt { x, y, tr: Tr::from_v(&xs[2])? })
+            }
+            _ => None,
+        }
+    }
+    fn to_v(&self) -> V {
+        V::R(vec![self.x.to_v(), self.y.to_v(), self.tr.to_v()])
+    }
+    fn arb(r: &mut Rng) -> Self {
+        Pt { x: u32::arb(r), y: u32::arb(r), tr: Tr::new() }
+    }
+}
+impl Fam for Ts {
+    fn from_v(v: &V) -> Option<Self> {
+        match v {
+            V::R(xs) if xs.len() == 3 => {
+                let (a, b) = (u8::from_v(&xs[0])?, String::from_v(&xs[1])?);
+                Some(Ts(a, b, Tr::from_v(&xs[2])?))
+            }
+            _ => None,
+        }
+    }
+    fn to_v(&self) -> V {
+        V::R(vec![self.0.to_v(), self.1.to_v(), self.2.to_v()])
+    }
+    fn arb(r: &mut Rng) -> Self {
+        Ts(u8::arb(r), String::arb(r), Tr::new())
+    }
+}
+impl Fam for Z {
+    fn from_v(v: &V) -> Option<Self> {
+        match v {
+            V::R(xs) if xs.is_empty() => Some(Z::new()),
+            _ => None,
+        }
+    }
+    fn to_v(&self) -> V {
+        V::R(vec![])
+    }
+    fn arb(_: &mut Rng) -> Self {
+        Z::new()
+    }
+}
+impl Fam for En {
+    fn from_v(v: &V) -> Option<Self> {
+        match v {
+            V::En(0, xs) if xs.is_empty() => Some(En::A),
+            V::En(1, xs) if xs.len() == 2 => Some(En::B(u32::from_v(&xs[0])?, u8::from_v(&xs[1])?)),
+            V::En(2, xs) if xs.len() == 2 => Some(En::C { s: String::from_v(&xs[0])?, n: u64::from_v(&xs[1])? }),
+            _ => None,
+        }
+    }
+    fn to_v(&self) -> V {
+        match self {
+            En::A => V::En(0, vec![]),
+            En::B(a, b) => V::En(1, vec![a.to_v(), b.to_v()]),
+            En::C { s, n } => V::En(2, vec![s.to_v(), n.to_v()]),
+        }
+    }
+    fn arb(r: &mut Rng) -> Self {
+        match r.below(3) {
+            0 => En::A,
+            1 => En::B(u32::arb(r), u8::arb(r)),
+            _ => En::C { s: String::arb(r), n: u64::arb(r) },
+        }
+    }
+}
+impl<T: Fam> Fam for G<T> {
+    fn from_v(v: &V) -> Option<Self> {
+        match v {
+            V::R(xs) if xs.len() == 3 => Some(G { a: T::from_v(&xs[0])?, b: Fam::from_v(&xs[1])?, v: Fam::from_v(&xs[2])? }),
+            _ => None,
+        }
+    }
+    fn to_v(&self) -> V {
+        V::R(vec![self.a.to_v(), self.b.to_v(), self.v.to_v()])
+    }
+    fn arb(r: &mut Rng) -> Self {
+        G { a: T::arb(r), b: Fam::arb(r), v: Fam::arb(r) }
+    }
+}
+impl Fam for P2 {
+    fn from_v(v: &V) -> Option<Self> {
+        match v {
+            V::R(xs) if xs.len() == 2 => Some(P2 { x: u16::from_v(&xs[0])?, y: u16::from_v(&xs[1])? }),
+            _ => None,
+        }
+    }
+    fn to_v(&self) -> V {
+        V::R(vec![self.x.to_v(), self.y.to_v()])
+    }
+    fn arb(r: &mut Rng) -> Self {
+        P2 { x: u16::arb(r), y: u16::arb(r) }
+    }
+}
+impl Fam for Nest {
+    fn from_v(v: &V) -> Option<Self> {
+        match v {
+            V::R(xs) if xs.len() == 5 => Some(Nest {
+                p: Fam::from_v(&xs[0])?,
+                e: Fam::from_v(&xs[1])?,
+                l: Fam::from_v(&xs[2])?,
+                o: Fam::from_v(&xs[3])?,
+                r: Fam::from_v(&xs[4])?,
+            }),
+            _ => None,
+        }
+    }
+    fn to_v(&self) -> V {
+        V::R(vec![self.p.to_v(), self.e.to_v(), self.l.to_v(), self.o.to_v(), self.r.to_v()])
+    }
+    fn arb(r: &mut Rng) -> Self {
+        Nest { p: Fam::arb(r), e: Fam::arb(r), l: Fam::arb(r), o: Fam::arb(r), r: Fam::arb(r) }
+    }
+}
+
+/// the family: name -> type.  Groups of layout-compatible types (same size and alignment):
+/// {u32 a4 f32 i32 char ncu32}, {u64 a8 f64 pt}, {str vecu8 vecstr}, {unit zst}
+macro_rules! with_clonable_ty {
+    ($name:expr, $T:ident => $body:expr, _ => $none:expr) => {
+        match $name {
+            "u32" => { type $T = W<u32>; $body }
+            "a4" => { type $T = W<[u8; 4]>; $body }
+            "f32" => { type $T = W<f32>; $body }
+            "i32" => { type $T = W<i32>; $body }
+            "char" => { type $T = W<char>; $body }
+            "u64" => { type $T = W<u64>; $body }
+            "a8" => { type $T = W<[u8; 8]>; $body }
+            "f64" => { type $T = W<f64>; $body }
+            "pt" => { type $T = Pt; $body }
+            "boxu64" => { type $T = W<Box<u64>>; $body }
+            "u8" => { type $T = W<u8>; $body }
+            "bool" => { type $T = W<bool>; $body }
+            "unit" => { type $T = W<()>; $body }
+            "zst" => { type $T = Z; $body }
+            "str" => { type $T = W<String>; $body }
+            "sstr" => { type $T = W<&'static str>; $body }
+            "vecu8" => { type $T = W<Vec<u8>>; $body }
+            "vecstr" => { type $T = W<Vec<String>>; $body }
+            "deq" => { type $T = W<VecDeque<u16>>; $body }
+            "map" => { type $T = W<BTreeMap<u8, String>>; $body }
+            "optu32" => { type $T = W<Option<u32>>; $body }
+            "optstr" => { type $T = W<Option<String>>; $body }
+            "res" => { type $T = W<Result<String, u8>>; $body }
+            "tup" => { type $T = W<(u16, String)>; $body }
+            "ts" => { type $T = Ts; $body }
+            "en" => { type $T = W<En>; $body }
+            "gstr" => { type $T = W<G<String>>; $body }
+            "gu8" => { type $T = W<G<u8>>; $body }
+            "nest" => { type $T = W<Nest>; $body }
+            "ip" => { type $T = W<Ipv4Addr>; $body }
+            "dur" => { type $T = W<Duration>; $body }
+            _ => $none,
+        }
+    };
+}
+macro_rules! with_ty {
+    ($name:expr, $T:ident => $body:expr, _ => $none:expr) => {
+        match $name {
+            "ncu32" => { type $T = Nc; $body }
+            other => with_clonable_ty!(other, $T => $body, _ => $none),
+        }
+    };
+}
+
+const CLONABLE: [&str; 31] = [
+    "u32", "a4", "f32", "i32", "char", "u64", "a8", "f64", "pt", "boxu64", "u8", "bool", "unit", "zst", "str", "sstr",
+    "vecu8", "vecstr", "deq", "map", "optu32", "optstr", "res", "tup", "ts", "en", "gstr", "gu8", "nest", "ip", "dur",
+];
+const GROUPS: [&[&str]; 5] = [
+    &["u32", "a4", "f32", "i32", "char", "ncu32"],
+    &["u64", "a8", "f64", "pt", "boxu64"],
+    &["str", "vecu8", "vecstr", "sstr", "deq"],
+    &["unit", "zst"],
+    &["optu32", "optstr", "res", "en", "gu8", "gstr", "nest"],
+];
+
+fn arb_val(ty: &str, r: &mut Rng) -> Option<String> {
+    with_ty!(ty, T => Some(<T as Fam>::arb(r).to_v().show()), _ => None)
+}
+
+// ------------------------------------------------------------------ generator
+
+fn other_ty(r: &mut Rng, ty: &str) -> &'static str {
+    if r.chance(2, 3) {
+        for g in GROUPS.iter() {
+            if g.contains(&ty) {
+                return g[r.below(g.len() as u64) as usize];
+            }
+        }
+    }
+    if r.chance(1, 12) {
+        "ncu32"
+    } else {
+        CLONABLE[r.below(CLONABLE.len() as u64) as usize]
+    }
+}
+
+pub fn gen(seed: u64, count: usize, thorough: bool) -> String {
+    let mut r = Rng::new(seed);
+    let mut out = String::new();
+    for k in 0..count {
+        let len = if thorough { r.range(10, 160) } else { r.range(8, 60) };
+        writeln!(out, "case {k}").unwrap();
+        let ntags = r.range(1, 4) as usize;
+        // shadow of the slots (only used to aim the requests): Some(body) = message exists
+        let mut sh: Vec<Option<Option<(&'static str, bool)>>> = vec![None; 6];
+        for t in 0..ntags {
+            writeln!(out, "new m{t} {} {}", r.below(65536), r.below(4)).unwrap();
+            sh[t] = Some(None);
+        }
+        for _ in 0..len {
+            let t = r.below(ntags as u64) as usize;
+            let held: Option<&'static str> = sh[t].and_then(|b| b.map(|x| x.0));
+            let aim = |r: &mut Rng| -> &'static str {
+                match held {
+                    Some(ty) if r.chance(1, 2) => ty,
+                    Some(ty) => other_ty(r, ty),
+                    None => CLONABLE[r.below(CLONABLE.len() as u64) as usize],
+                }
+            };
+            let mut x = r.below(20);
+            if sh[t].is_none() && r.chance(2, 3) {
+                x = 0;
+            } else if sh[t] == Some(None) && r.chance(2, 3) {
+                x = 1;
+            }
+            match x {
+                0 => {
+                    writeln!(out, "new m{t} {} {}", r.below(65536), r.below(4)).unwrap();
+                    sh[t] = Some(None);
+                }
+                1..=4 => {
+                    let ty: &'static str = match held {
+                        Some(ty) if r.chance(1, 3) => other_ty(&mut r, ty),
+                        _ => {
+                            if r.chance(1, 10) {
+                                "ncu32"
+                            } else {
+                                CLONABLE[r.below(CLONABLE.len() as u64) as usize]
+                            }
+                        }
+                    };
+                    let ctor = if ty == "ncu32" {
+                        "nc".to_string()
+                    } else {
+                        match r.below(10) {
+                            0 => "nc".to_string(),
+                            1 => format!("wl:{}", r.below(3000)),
+                            2 => "nd".to_string(),
+                            _ => "c".to_string(),
+                        }
+                    };
+                    let mut vr = r.fork();
+                    writeln!(out, "set m{t} {ctor} {ty} {}", arb_val(ty, &mut vr).unwrap()).unwrap();
+                    if sh[t].is_some() {
+                        sh[t] = Some(Some((ty, ctor != "nc")));
+                    }
+                }
+                5..=7 => {
+                    let d = r.below(ntags as u64 + 2) as usize;
+                    let op = if r.chance(1, 2) { "clone" } else { "tryclone" };
+                    writeln!(out, "{op} m{t} m{d}").unwrap();
+                    match sh[t] {
+                        Some(None) => sh[d] = Some(None),
+                        Some(Some((ty, true))) => sh[d] = Some(Some((ty, true))),
+                        _ => {}
+                    }
+                }
+                8..=10 => {
+                    let ty = aim(&mut r);
+                    writeln!(out, "cast m{t} {ty}").unwrap();
+                    if held == Some(ty) {
+                        sh[t] = None;
+                    }
+                }
+                11..=14 => {
+                    let ty = aim(&mut r);
+                    let op = if r.chance(1, 4) { "contentmut" } else { "content" };
+                    writeln!(out, "{op} m{t} {ty}").unwrap();
+                }
+                15 => {
+                    let ty = aim(&mut r);
+                    writeln!(out, "cancast m{t} {ty}").unwrap();
+                }
+                16..=18 => writeln!(out, "len m{t}").unwrap(),
+                _ => {
+                    writeln!(out, "drop m{t}").unwrap();
+                    sh[t] = None;
+                }
+            }
+        }
+        writeln!(out, "end").unwrap();
+    }
+    out
+}
+
+// ------------------------------------------------------------------ executor
+
+fn set_generic<T>(m: &mut Message, ctor: &str, v: &V) -> Option<String>
+where
+    T: Fam + MessageBody + Clone + std::fmt::Debug,
+{
+    let value = T::from_v(v)?;
+    if ctor == "c" {
+        m.set_content(value);
+        Some("ok".into())
+    } else if ctor == "nc" {
+        m.set_content_non_clonable(value);
+        Some("ok".into())
+    } else if ctor == "nd" {
+        m.set_content_non_debugable(value);
+        Some(format!("ok size={}", std::mem::size_of::<T>()))
+    } else if let Some(n) = ctor.strip_prefix("wl:") {
+        let n: usize = n.parse().ok()?;
+        m.set_body(Body::new_with_len(value, n));
+        Some("ok".into())
+    } else {
+        None
+    }
+}
+
+fn set_nc<T>(m: &mut Message, ctor: &str, v: &V) -> Option<String>
+where
+    T: Fam + MessageBody + std::fmt::Debug,
+{
+    if ctor != "nc" {
+        return None;
+    }
+    let value = T::from_v(v)?;
+    m.set_content_non_clonable(value);
+    Some("ok".into())
+}
+
+fn cast_generic<T>(m: Message) -> Result<String, Message>
+where
+    T: Fam + MessageBody + Send,
+{
+    match m.try_cast::<T>() {
+        Ok((value, header)) => {
+            let s = format!("ok {} id={} kind={}", value.to_v().show(), header.id, header.kind);
+            drop(value);
+            Ok(s)
+        }
+        Err(m) => Err(m),
+    }
+}
+
+pub fn exec(input: &str) -> String {
+    let mut out = String::new();
+    let metrics = ChannelMetrics::new(8, Duration::ZERO, Duration::ZERO, ChannelDropBehaviour::Drop);
+    for (header, body) in cases(input) {
+        writeln!(out, "{header}").unwrap();
+        reg_reset();
+        let mut slots: Vec<(String, Message)> = Vec::new();
+        for line in body {
+            let tok: Vec<&str> = line.split_whitespace().collect();
+            let find = |slots: &Vec<(String, Message)>, tag: &str| slots.iter().position(|s| s.0 == tag);
+            let res: String = match tok.as_slice() {
+                ["new", tag, id, kind] => {
+                    let (Ok(id), Ok(kind)) = (id.parse::<u16>(), kind.parse::<u16>()) else { continue };
+                    let m = Message::default().id(id).kind(kind);
+                    match find(&slots, tag) {
+                        Some(k) => slots[k].1 = m,
+                        None => slots.push((tag.to_string(), m)),
+                    }
+                    "ok".into()
+                }
+                ["set", tag, ctor, ty, val] => {
+                    let Some(v) = V::parse(val) else { continue };
+                    match find(&slots, tag) {
+                        None => "noslot".into(),
+                        Some(k) => {
+                            let m = &mut slots[k].1;
+                            let r = if *ty == "ncu32" {
+                                set_nc::<Nc>(m, ctor, &v)
+                            } else {
+                                with_clonable_ty!(*ty, T => set_generic::<T>(m, ctor, &v), _ => None)
+                            };
+                            match r {
+                                Some(r) => r,
+                                None => continue,
+                            }
+                        }
+                    }
+                }
+                [op @ ("clone" | "tryclone"), src, dst] => match find(&slots, src) {
+                    None => "noslot".into(),
+                    Some(k) => {
+                        let r = if *op == "clone" {
+                            match guarded(|| slots[k].1.clone()) {
+                                Ok(m) => Ok(m),
+                                Err(_) => Err("panic"),
+                            }
+                        } else {
+                            slots[k].1.try_clone().ok_or("none")
+                        };
+                        match r {
+                            Ok(m) => {
+                                match find(&slots, dst) {
+                                    Some(d) => slots[d].1 = m,
+                                    None => slots.push((dst.to_string(), m)),
+                                }
+                                "cloned".into()
+                            }
+                            Err(e) => e.into(),
+                        }
+                    }
+                },
+                ["cast", tag, ty] => match find(&slots, tag) {
+                    None => "noslot".into(),
+                    Some(k) => {
+                        let (tg, m) = slots.remove(k);
+                        let r: Option<Result<String, Message>> = with_ty!(*ty, T => Some(cast_generic::<T>(m)), _ => None);
+                        match r {
+                            Some(Ok(s)) => s,
+                            Some(Err(m)) => {
+                                slots.insert(k, (tg, m));
+                                "err".into()
+                            }
+                            None => continue, // unknown type name: the message was dropped by the match arm
+                        }
+                    }
+                },
+                [op @ ("content" | "contentmut"), tag, ty] => match find(&slots, tag) {
+                    None => "noslot".into(),
+                    Some(k) => {
+                        let m = &mut slots[k].1;
+                        let r: Option<Option<String>> = if *op == "content" {
+                            with_ty!(*ty, T => Some(m.try_content::<T>().map(|v| v.to_v().show())), _ => None)
+                        } else {
+                            with_ty!(*ty, T => Some(m.try_content_mut::<T>().map(|v| v.to_v().show())), _ => None)
+                        };
+                        match r {
+                            Some(Some(s)) => format!("some {s}"),
+                            Some(None) => "none".into(),
+                            None => continue,
+                        }
+                    }
+                },
+                ["cancast", tag, ty] => match find(&slots, tag) {
+                    None => "noslot".into(),
+                    Some(k) => {
+                        let m = &slots[k].1;
+                        let r: Option<bool> = with_ty!(*ty, T => Some(m.can_cast::<T>()), _ => None);
+                        match r {
+                            Some(b) => format!("{b}"),
+                            None => continue,
+                        }
+                    }
+                },
+                ["len", tag] => match find(&slots, tag) {
+                    None => "noslot".into(),
+                    Some(k) => {
+                        let m = &slots[k].1;
+                        format!("len={} busy={}", m.length(), metrics.calculate_busy(m).as_nanos())
+                    }
+                },
+                ["drop", tag] => match find(&slots, tag) {
+                    None => "noslot".into(),
+                    Some(k) => {
+                        let (_, m) = slots.remove(k);
+                        drop(m);
+                        "ok".into()
+                    }
+                },
+                _ => continue,
+            };
+            let (i, d) = totals();
+            writeln!(out, "{line} -> {res} i={i} d={d}").unwrap();
+        }
+        drop(slots);
+        let (i, d) = totals();
+        let (multi, leaked) = REG.with(|r| {
+            let r = r.borrow();
+            (r.iter().filter(|c| **c > 1).count(), r.iter().filter(|c| **c == 0).count())
+        });
+        writeln!(out, "end i={i} d={d} multi={multi} leaked={leaked}").unwrap();
+    }
+    out
 }
